@@ -7,6 +7,7 @@
 from pyasn1 import error
 from pyasn1.codec.ber import encoder
 from pyasn1.compat.octets import str2octs, null
+from pyasn1.type import base
 from pyasn1.type import univ
 from pyasn1.type import useful
 
@@ -224,6 +225,15 @@ class SetEncoder(encoder.SequenceEncoder):
 
                 if namedType.isOptional and namedType.name not in value:
                     continue
+
+                defaultValue = namedType.asn1Object
+
+                if (namedType.isDefaulted and
+                        not isinstance(component, base.Asn1Item) and
+                        isinstance(defaultValue, base.SimpleAsn1Type)):
+                    # compare like with like: any Python value the type
+                    # accepts may spell the default (octets for a text string)
+                    component = defaultValue.clone(component)
 
                 if namedType.isDefaulted and component == namedType.asn1Object:
                     continue
